@@ -43,11 +43,14 @@ import (
 )
 
 const (
-	longWait    = 90 * time.Second        // deadline for things that must happen
-	shortWait   = 2500 * time.Millisecond // how long a request the known defect may starve is given
-	leakWait    = 3 * time.Second         // how long a want-list that holds only delivered keys is watched
-	divergeWait = 10 * time.Second        // how long the engine is given to reach the prediction of the defective variant
-	unitWait    = 30 * time.Second        // deadline inside a unit / node case; when it passes the case is cut short
+	longWait        = 90 * time.Second        // deadline for things that must happen
+	shortWait       = 2500 * time.Millisecond // how long a request the known defect may starve is given
+	leakWait        = 3 * time.Second         // how long a want-list that holds only delivered keys is watched
+	divergeWait     = 10 * time.Second        // how long the engine is given to reach the prediction of the defective variant
+	tickSearch      = 25 * time.Millisecond   // ProviderSearchDelay (idle tick, with back-off) in histories with ticks
+	tickRebroadcast = 40 * time.Millisecond   // RebroadcastDelay (periodic search) in histories with ticks
+	tickWindow      = 350 * time.Millisecond  // how long one tick event watches the want-list
+	unitWait        = 30 * time.Second        // deadline inside a unit / node case; when it passes the case is cut short
 )
 
 // stuckCases counts cases that were cut short because a deadline passed; once a few have been
@@ -446,7 +449,16 @@ type nreq struct {
 func runNode(t *testing.T, evs []nev) (string, map[string]any) {
 	u := newUniverse(8, "n")
 	vnet := tn.VirtualNetwork(delay.Fixed(0))
-	ig := testinstance.NewTestInstanceGenerator(vnet, mockrouting.NewServer(), nil, nil)
+	var opts []bitswap.Option
+	for _, e := range evs {
+		if e.Kind == "tick" {
+			// histories that watch the want-list over time: make the sessions' idle tick and
+			// periodic search fire every few tens of milliseconds
+			opts = []bitswap.Option{bitswap.ProviderSearchDelay(tickSearch), bitswap.RebroadcastDelay(tickRebroadcast)}
+			break
+		}
+	}
+	ig := testinstance.NewTestInstanceGenerator(vnet, mockrouting.NewServer(), nil, opts)
 	defer ig.Close()
 	inst := ig.Instances(2)
 	req, prov := inst[0], inst[1]
@@ -622,6 +634,20 @@ func runNode(t *testing.T, evs []nev) (string, map[string]any) {
 				}
 			}
 			emit(fmt.Sprintf("NCancel %d", e.K), settle(), true)
+		case "tick":
+			// time passes: sample the want-list across several idle-tick / periodic-search periods of
+			// the open sessions; every sample is an observation (a key that comes back shows up here)
+			end := time.Now().Add(tickWindow)
+			var last []int
+			for first := true; time.Now().Before(end); first = false {
+				got := wl()
+				if first || !intsEq(got, last) {
+					emit("NTick", got, true)
+					last = got
+				}
+				time.Sleep(4 * time.Millisecond)
+			}
+			emit("NTick", wl(), true)
 		}
 	}
 	if stuck {
@@ -630,6 +656,41 @@ func runNode(t *testing.T, evs []nev) (string, map[string]any) {
 	outs := vh.ListOf(reqs, func(r *nreq) string { return nats(r.out) })
 	term := fmt.Sprintf("(CNode %s %s)", vh.List(terms), outs)
 	return term, map[string]any{"kind": "node", "events": evs}
+}
+
+// genNodeTicks: histories on long-lived sessions in which requests for keys that nobody holds (yet) are
+// cancelled while their session stays open, and the want-list is then watched over several tick periods.
+func genNodeTicks(e *vh.Env) []nev {
+	r := e.Rng
+	var evs []nev
+	nreq := 0
+	open := []int{}
+	n := 3 + r.Intn(5)
+	for i := 0; i < n; i++ {
+		switch x := r.Intn(10); {
+		case x < 4 || nreq == 0:
+			nk := 1 + r.Intn(2)
+			keys := make([]int, nk)
+			for j := range keys {
+				keys[j] = r.Intn(5)
+			}
+			evs = append(evs, nev{Kind: "start", Sess: r.Intn(2), Keys: keys})
+			open = append(open, nreq)
+			nreq++
+		case x < 5:
+			evs = append(evs, nev{Kind: "block", K: r.Intn(5)})
+		case x < 6:
+			evs = append(evs, nev{Kind: "tick"})
+		default:
+			if len(open) > 0 {
+				j := r.Intn(len(open))
+				evs = append(evs, nev{Kind: "cancel", K: open[j]}, nev{Kind: "tick"})
+				open = append(open[:j], open[j+1:]...)
+			}
+		}
+	}
+	evs = append(evs, nev{Kind: "tick"})
+	return evs
 }
 
 func genNode(e *vh.Env) []nev {
@@ -962,6 +1023,10 @@ func TestC37(t *testing.T) {
 		{{Kind: "block", K: 1}, {Kind: "start", Sess: 0, Keys: []int{1, 1, 2}}, {Kind: "block", K: 2}, {Kind: "start", Sess: 0, Keys: []int{2}}},
 		// cancel with nothing received
 		{{Kind: "start", Sess: 0, Keys: []int{4}}, {Kind: "cancel", K: 0}, {Kind: "block", K: 4}},
+		// a request on a long-lived session is cancelled while nobody has its keys: the keys must not come
+		// back into the want-list when the session's idle tick / periodic search fires
+		{{Kind: "start", Sess: 1, Keys: []int{5, 6}}, {Kind: "tick"}, {Kind: "cancel", K: 0}, {Kind: "tick"}},
+		{{Kind: "start", Sess: 1, Keys: []int{5}}, {Kind: "start", Sess: 1, Keys: []int{6}}, {Kind: "cancel", K: 0}, {Kind: "tick"}, {Kind: "block", K: 6}, {Kind: "tick"}},
 		// Exchange.GetBlocks (a session of its own): cancellation and completion both clean up
 		{{Kind: "start", Sess: 10, Keys: []int{1, 2}}, {Kind: "start", Sess: 11, Keys: []int{2, 3}}, {Kind: "cancel", K: 0}, {Kind: "block", K: 2}, {Kind: "block", K: 3}},
 	}
@@ -1035,6 +1100,20 @@ func TestC37(t *testing.T) {
 			st.Count("node.ev=" + ev.Kind)
 		}
 		st.Sample(rp, 4)
+	}
+	for i := 0; i < e.Pick(8, 60); i++ {
+		evs := genNodeTicks(e)
+		if stuckCases >= 3 {
+			continue
+		}
+		term, rp := runNode(t, evs)
+		cs.Add(term, rp)
+		st.Case(term, len(evs) >= 3)
+		st.Count("node.with-ticks")
+		for _, ev := range evs {
+			st.Count("node.ev=" + ev.Kind)
+		}
+		st.Sample(rp, 5)
 	}
 	for i := 0; i < e.Pick(60, 500); i++ {
 		spec := genSys(e)
